@@ -1,0 +1,14 @@
+//go:build verif
+
+package ent
+
+import (
+	"github.com/ngicks/gokugen/def"
+	"github.com/ngicks/mockable"
+)
+
+// VerifSetClock swaps the clock. Verification builds only.
+func (r *EntRepository) VerifSetClock(c mockable.Clock) { r.clock = c }
+
+// VerifSetRandStrGen swaps the id source. Verification builds only.
+func (r *EntRepository) VerifSetRandStrGen(g def.RandStrGen) { r.randStrGen = g }
